@@ -71,3 +71,66 @@ package eval
 //@   loop 1:
 //@     invariant idx: 0 - 1 <= rangeindex && rangeindex < len(pe.sortedAdminNetpols) + 1 && pe.sortedAdminNetpols == old(pe.sortedAdminNetpols)
 //@     invariant before: forall k int :: {pe.sortedAdminNetpols[k]} (0 <= k && k <= rangeindex) ==> pe.sortedAdminNetpols[k] != anp
+
+// ---------------------------------------------------------------------------------------------
+// The verdict cache (C15, C03): abstract view lruHas / lruVal of the LRU cache (A-lru)
+// ---------------------------------------------------------------------------------------------
+
+// the pod a k8s.Peer stands for (nil for IP blocks)
+//@ fun peerPod(p k8s.Peer) *k8s.Pod = if dyntype(p, *k8s.PodPeer) then unwrap(p, *k8s.PodPeer).Pod else nil
+//@ pred peerOK(p k8s.Peer) = (dyntype(p, *k8s.PodPeer) && unwrap(p, *k8s.PodPeer) != nil && peerPod(p) != nil)
+//@     || (dyntype(p, *k8s.IPBlockPeer) && unwrap(p, *k8s.IPBlockPeer) != nil)
+//@ fun ownerKey(p *k8s.Pod) string = strJoin3(p.Namespace, p.Owner.Name, p.Owner.Variant, "/")
+// the cache key of a connection: only pod-to-pod connections between pods that have an owner are cached
+//@ pred cacheable(src k8s.Peer, dst k8s.Peer) = dyntype(src, *k8s.PodPeer) && dyntype(dst, *k8s.PodPeer)
+//@     && peerPod(src).Owner.Name != "" && peerPod(dst).Owner.Name != ""
+//@ fun connKey(src k8s.Peer, dst k8s.Peer, protocol string, port string) string =
+//@     if cacheable(src, dst) then strJoin4(ownerKey(peerPod(src)), ownerKey(peerPod(dst)), protocol, port, "/") else ""
+
+//@ func getPodOwnerKey
+//@   requires p != nil
+//@   ensures [C15,C03] def: res == ownerKey(p)
+
+//@ func (*evalCache).keyPerConnection
+//@   requires peerOK(src) && peerOK(dst)
+//@   ensures [C15,C03] def: res == connKey(src, dst, protocol, port)
+
+//@ func (*evalCache).hasConnectionResult
+//@   requires ec != nil && peerOK(src) && peerOK(dst)
+//@   modifies ec.cacheHitsCount
+//@   ensures [C15,C03] hit: hasConnKey == (ec.cache != nil && connKey(src, dst, protocol, port) != ""
+//@         && lruHas(ec.cache)[connKey(src, dst, protocol, port)])
+//@   ensures [C15,C03] val: hasConnKey ==> connResult == lruVal(ec.cache)[connKey(src, dst, protocol, port)]
+
+//@ func (*evalCache).addConnectionResult
+//@   requires ec != nil && peerOK(src) && peerOK(dst)
+//@   modifies lruHas { r | r == ec.cache }, lruVal { r | r == ec.cache }
+//@   ensures [C15,C03] stored: (ec.cache != nil && connKey(src, dst, protocol, port) != "") ==>
+//@         (lruHas(ec.cache)[connKey(src, dst, protocol, port)] && lruVal(ec.cache)[connKey(src, dst, protocol, port)] == res)
+//@   ensures [C15,C03] others: forall k string :: {lruHas(ec.cache)[k]} {lruVal(ec.cache)[k]} k != connKey(src, dst, protocol, port) ==>
+//@         ((lruHas(ec.cache)[k] ==> old(lruHas(ec.cache)[k])) && lruVal(ec.cache)[k] == old(lruVal(ec.cache)[k]))
+//@   ensures [C15,C03] nokey: (ec.cache == nil || connKey(src, dst, protocol, port) == "") ==>
+//@         (lruHas(ec.cache) == old(lruHas(ec.cache)) && lruVal(ec.cache) == old(lruVal(ec.cache)))
+
+//@ func (*evalCache).clear
+//@   requires ec != nil
+//@   modifies ec.ownerToPods, lruHas { r | r == ec.cache }
+//@   ensures [C15] purged: ec.cache != nil ==> (forall k string :: {lruHas(ec.cache)[k]} !lruHas(ec.cache)[k])
+
+//@ func (*evalCache).deleteWorkload
+//@   requires ec != nil && ec.cache != nil
+//@   modifies lruHas { r | r == ec.cache }
+//@   ensures [C15] removed: forall k string :: {lruHas(ec.cache)[k]} lruHas(ec.cache)[k] == (old(lruHas(ec.cache)[k]) && !strContains(k, key))
+//@   loop 1:
+//@     invariant idx: 0 - 1 <= rangeindex && rangeindex < len(cacheKeys) + 1
+//@     invariant shrink: forall k string :: {lruHas(ec.cache)[k]} lruHas(ec.cache)[k] ==> (old(lruHas(ec.cache)[k]) && (exists i int :: 0 <= i && i < len(cacheKeys) && cacheKeys[i] == k))
+//@     invariant keep: forall k string :: {lruHas(ec.cache)[k]} (old(lruHas(ec.cache)[k]) && !strContains(k, key)) ==> lruHas(ec.cache)[k]
+//@     invariant done: forall i int :: {cacheKeys[i]} (0 <= i && i <= rangeindex && strContains(cacheKeys[i], key)) ==> !lruHas(ec.cache)[cacheKeys[i]]
+
+//@ func (*evalCache).deletePod
+//@   requires ec != nil && ec.cache != nil && p != nil && ec.ownerToPods != nil
+//@   modifies ec.ownerToPods[*], map[string]struct{} { m | true }, lruHas { r | r == ec.cache }
+//@   ensures [C15] lastpod: (!old(ownerKey(p) in ec.ownerToPods)
+//@         || (forall n string :: {n in old(ec.ownerToPods[ownerKey(p)])} old(n in ec.ownerToPods[ownerKey(p)]) ==> n == podName)) ==>
+//@         (forall k string :: {lruHas(ec.cache)[k]} strContains(k, ownerKey(p)) ==> !lruHas(ec.cache)[k])
+//@   ensures [C15] only: forall k string :: {lruHas(ec.cache)[k]} lruHas(ec.cache)[k] ==> old(lruHas(ec.cache)[k])
